@@ -20,6 +20,12 @@ CLAIMED = {
      note="as C01; registered commanders (Commander::send_queued) not exercised yet, only ad hoc sends"),
 }
 
+CLAIMED["C05"] = dict(level="fault_enumeration", ref="DESIGN.md §4 C05", technique="deterministic simulation with a recording store; crash (future dropped / panic inside store call k), store error, stop and time-out placement search; restart on the surviving store",
+     text="Seeded placement of crashes (agent future dropped at step s or after the n-th frame read by a remote, process killed inside store call k), store errors, mid-stream stop and inactivity time-out over update histories on persistent and transient lanes and stores; invariant: every frame a remote read for a persistent lane had been handed to the store before; after restart on the surviving store every persistent item holds exactly what the store log implies, never something older than a subscriber saw, transient items are at their defaults.",
+     note="RecordingStore (public NodePersistence trait) instead of RocksDB; crash points are at poll boundaries and inside store calls, not inside arbitrary instructions")
+CLAIMED["C20"] = dict(level="exploration", ref="DESIGN.md §4 C20", technique="deterministic simulation with NodeReporting enabled; introspection snapshots at every idle point compared with the links implied by the frames the remotes have read",
+     text="Seeded search over link/unlink/sync churn, remote disconnects, freezes, stop and time-out with introspection reporting enabled; at every idle point each lane's and the agent's reported uplink count must equal the number of links open according to the frames read (bounds when a remote is frozen or disconnected), the aggregate must equal the sum of the lanes, and the sums of all snapshots must account for every event frame read and every command delivered.",
+     note="as C01; lane failure and the component-level Links / shuttle parts are not built yet")
 PENDING = {}
 NOT_APPLICABLE = {
  "C15": "pure function of its two string arguments: no schedule, clock, I/O or fault can change the outcome, so there is nothing for a simulator to control (DESIGN.md §4 C15)",
